@@ -3,8 +3,8 @@ import itertools
 
 ID = 'C18'
 FILES = ['prysm/geometry.py', 'prysm/segmented.py', 'prysm/coordinates.py']
-FUNCTIONS = ['geometry.circle/annulus/offset_circle/rectangle(0,90 deg)/rotated_ellipse/truecircle/_generate_vertices',
-             'segmented.hex_ring/hex_to_xy/hex_neighbor/_local_window', 'segmented.CompositeHexagonalAperture.compose_opd']
+FUNCTIONS = ['geometry.circle/annulus/offset_circle/rectangle(multiples of 90 deg)/rotated_ellipse/truecircle/_generate_vertices',
+             'segmented.hex_ring/hex_to_xy/hex_neighbor/_local_window', 'segmented.CompositeHexagonalAperture.compose_opd', 'segmented.CompositeKeystoneAperture.compose_opd']
 STUBS = ['np.hypot/np.sqrt -> sqrt atoms', 'np.cos/np.sin of an angle atom -> its rational (cos, sin)', 'comparisons on arrays stay symbolic booleans until used',
          'scipy.spatial.Delaunay point location is NOT modelled']
 EXPLANATION = ('Primitives are evaluated at a SYMBOLIC sample point with symbolic parameters (radius, centre, widths, orientation) and the returned '
@@ -24,13 +24,14 @@ MAX_PATHS = 64
 
 def configs(tier):
     q = tier == 'quick'
-    out = [{'name': n, 'kind': n} for n in ('circle', 'annulus', 'offset_circle', 'rectangle0', 'rectangle90', 'ellipse', 'truecircle')]
+    out = [{'name': n, 'kind': n} for n in ('circle', 'annulus', 'offset_circle', 'rectangle0', 'rectangle90', 'rectangle180', 'rectangle270', 'rectangle-90', 'rectangle360', 'ellipse', 'truecircle')]
     for s in range(3, (8 if q else 12) + 1):
         out.append({'name': 'vertices-%d' % s, 'kind': 'vertices', 'sides': s})
     for i in range(1, (4 if q else 6) + 1):
         out.append({'name': 'hex-ring-%d' % i, 'kind': 'hexring', 'ring': i})
     out.append({'name': 'local-window', 'kind': 'window'})
     out.append({'name': 'compose-opd', 'kind': 'opd'})
+    out.append({'name': 'compose-opd-keystone', 'kind': 'opd_keystone'})
     return out
 
 
@@ -43,7 +44,7 @@ def params(cfg):
         return [('r', {'nonneg': True}), ('Ri', {'nonneg': True}), ('Ro', {'nonneg': True})]
     if k == 'offset_circle':
         return base + [('cx', {}), ('cy', {}), ('R', {'nonneg': True}), ('R2', {'nonneg': True})]
-    if k in ('rectangle0', 'rectangle90'):
+    if k.startswith('rectangle'):
         return base + [('w', {'pos': True}), ('h', {'pos': True}), ('w2', {'pos': True})]
     if k == 'ellipse':
         return base + [('a', {'pos': True}), ('b', {'pos': True}), ('wang', {'gt': 0, 'lt': 1})]
@@ -98,12 +99,12 @@ def run(cfg, H):
         H.holds('offset_circle is point-symmetric about its centre', iff(m, mm) if sym else (m == mm))
         m2 = member(geo.offset_circle(R2, X, Y, (cx, cy)))
         H.holds('offset_circle grows monotonically with its radius', implies((R <= R2) & m, m2) if sym else ((not (R <= R2 and m)) or m2))
-    elif k in ('rectangle0', 'rectangle90'):
+    elif k.startswith('rectangle'):
         x, y, w, h, w2 = [H.param(n) for n in ('x', 'y', 'w', 'h', 'w2')]
         X, Y = H.asarray([[x, x]]), H.asarray([[y, y]])
-        ang = 0 if k == 'rectangle0' else 90
+        ang = int(k[len('rectangle'):])
         m = member(geo.rectangle(w, X, Y, height=h, angle=ang))
-        if ang == 0:
+        if ang % 180 == 0:
             want = (x <= w) & (x >= -w) & (y <= h) & (y >= -h)
         else:
             want = (y <= w) & (y >= -w) & (x <= h) & (x >= -h)
@@ -191,6 +192,36 @@ def run(cfg, H):
             H.le('window %s stop <= extent' % nm, sl.stop, ext)
             H.le('window %s start <= stop' % nm, sl.start, sl.stop)
             H.le('window %s is at most 2*samples wide' % nm, sl.stop - sl.start, 4)
+    elif k == 'opd_keystone':
+        seg = H.mod('prysm.segmented')
+        import numpy as _np
+        ap = object.__new__(seg.CompositeKeystoneAperture)
+        ap.x = H.zeros((4, 6), complex_=False)
+        # the centre window is a square around the centre circle: it overlaps the windows of the first ring
+        cwin = (slice(1, 3), slice(2, 4))
+        cmask = _np.array([[1, 1], [1, 0]])
+        wins = [(slice(0, 2), slice(0, 3)), (slice(1, 4), slice(3, 6))]
+        masks = [_np.array([[1, 1, 0], [1, 0, 0]]), _np.array([[0, 0, 1], [0, 1, 1], [0, 1, 0]])]
+        ap.center_window, ap.center_mask = cwin, (H.asarray(cmask) if sym else cmask.astype(float))
+        ap.segment_windows = wins
+        ap.segment_masks = [H.asarray(m) if sym else m.astype(float) for m in masks]
+        nb = 2
+        allw = [cwin] + wins
+        ap.opd_bases = [H.np.stack([H.asarray(H.rarray('b%d_%d' % (s_, j), (w[0].stop - w[0].start, w[1].stop - w[1].start))) for j in range(nb)])
+                        for s_, w in enumerate(allw)]
+        cc = [H.content('cc_%d' % j) for j in range(nb)]
+        sc = [[H.content('c%d_%d' % (s_, j)) for j in range(nb)] for s_ in range(2)]
+        ref = H.zeros((4, 6), complex_=False)
+        for s_, (w, m, co) in enumerate(zip(allw, [cmask] + masks, [cc] + sc)):
+            for i in range(m.shape[0]):
+                for j in range(m.shape[1]):
+                    if m[i, j]:
+                        gi, gj = w[0].start + i, w[1].start + j
+                        ref[gi, gj] = ref[gi, gj] + sum(co[b] * ap.opd_bases[s_][b][i, j] for b in range(nb))
+        H.eq('keystone compose_opd == sum over centre and segments of mask * (coefficients . basis)', ap.compose_opd(cc, sc), ref)
+        prior = H.rarray('prior', (4, 6))
+        into = ap.compose_opd(cc, sc, out=H.asarray(prior.copy()))
+        H.eq('keystone: composing into an existing map (out=) adds to it', into, prior + ref)
     elif k == 'opd':
         seg = H.mod('prysm.segmented')
         ap = object.__new__(seg.CompositeHexagonalAperture)
@@ -215,6 +246,9 @@ def run(cfg, H):
                         owner[gi, gj] = s
                         ref[gi, gj] = ref[gi, gj] + sum(coefs[s][b] * ap.opd_bases[s][b][i, j] for b in range(nb))
         H.eq('compose_opd == sum over segments of mask * (coefficients . basis), zero elsewhere', out, ref)
+        prior = H.rarray('prior', (4, 6))
+        into = ap.compose_opd(coefs, out=H.asarray(prior.copy()))
+        H.eq('composing into an existing map (out=) adds to it', into, prior + ref)
         # a unit piston on one segment changes only that segment
         pist = [[H.content('p%d' % s), 0 * H.content('p%d' % s)] for s in range(3)]
         ap.opd_bases = [H.np.stack([H.asarray(1 + 0 * b[0]), H.asarray(0 * b[0])]) for b in ap.opd_bases]
